@@ -592,9 +592,10 @@ Definition is_print_latin1 (r : Z) : bool :=
 
 Definition hex_digit (d : Z) : N := if d <? 10 then Z.to_N (48 + d) else Z.to_N (97 + d - 10).
 
-(* str += string(r) (UTF-8)  or  str += fmt.Sprintf("\\u%04x", r), for 0 <= r < 256 *)
+(* str += string(r) (UTF-8)  or  str += fmt.Sprintf("\\u%04x", r), for 0 <= r < 256;
+   the backslash itself is escaped as well (\u005c), so every '\' of the output starts an escape *)
 Definition string_rune (r : Z) : list N :=
-  if is_print_latin1 r then
+  if is_print_latin1 r && negb (r =? 92) then      (* unicode.IsPrint(r) && r != '\\' (F44 repaired) *)
     if r <? 128 then [Z.to_N r]
     else [Z.to_N (192 + r / 64); Z.to_N (128 + r mod 64)]
   else [92%N; 117%N; 48%N; 48%N; hex_digit (r / 16); hex_digit (r mod 16)].
